@@ -346,6 +346,13 @@ add("C10", "fixed", "ws:plain:liquid", "an empty {% liquid %} tag swallowed the 
      {"segs": ["a ", {"k": "liquid", "f": [0, 0], "lit": "L", "var": "empty"}, " b"], "tc": False},
      {"segs": ["", {"k": "liquid", "f": [0, 0], "lit": " ", "var": "empty"}, "x", {"k": "out", "f": [0, 0], "lit": "L"}, ""], "tc": True}], "d8692f0")
 
+# ----------------------------------------------------------------------------- C12 fixed in round 4 (first reported by an independent sub-agent)
+add("C12", "fixed", "logical-grouping", "with logical_parentheses on, a grouping '(' was lexed as the start of a range literal whenever '..' appeared later in the expression: "
+    "(a or b) and (1..3) contains 2, ((1..3) contains 2) and (x == '..') raised LiquidSyntaxError",
+    [{"kind": "tree", "ctx": "if", "tokens": [{"v": True, "name": "p"}, "and", "(", {"v": False, "src": "(1..3) contains 5"}, ")"]},
+     {"kind": "tree", "ctx": "ternary", "tokens": ["(", {"v": True, "name": "p"}, "or", {"v": False, "name": "q"}, ")", "and", {"v": True, "src": "(1..3) contains 2"}]},
+     {"kind": "tree", "ctx": "unless", "tokens": ["(", {"v": True, "src": "s2 == '..'"}, ")"]}], "304cf02")
+
 if __name__ == "__main__":
     # further entries are appended by tools/mkfindings.py from triaged replay files and kept in findings_extra.json
     extra_path = os.path.join(VERIF, "tools", "findings_extra.json")
